@@ -227,7 +227,7 @@ def _short(x):
 # Hypothesis driver
 # ---------------------------------------------------------------------------
 def run_hypothesis(ctx: Ctx, strategy, oracle, max_examples: int, label: str = "", rounds: int = 3,
-                   shrink: bool = True):
+                   shrink: bool = True, shrink_budget: int = 120):
     """Drive ``oracle(spec, ctx)`` with Hypothesis.  Failures are shrunk, recorded on ctx
     (de-duplicated by signature), then the search continues with that signature muted so that
     up to ``rounds`` distinct root causes are enumerated."""
@@ -240,14 +240,37 @@ def run_hypothesis(ctx: Ctx, strategy, oracle, max_examples: int, label: str = "
     for rnd in range(rounds):
         last = {}
 
+        failed = {}
+
         def body(spec):
+            h = spec_hash(spec)
+            if h in failed:  # deterministic re-raise (Hypothesis' final replay / re-visits)
+                last["v"], last["spec"] = failed[h], spec
+                raise failed[h]
+            if failed:  # shrinking: bounded number of further oracle executions
+                last["n"] = last.get("n", 0) + 1
+                if last["n"] > shrink_budget:
+                    return
+            if "harness" in last:
+                return
             try:
-                oracle(spec, ctx)
+                try:
+                    oracle(spec, ctx)
+                except Violation:
+                    raise
+                except Exception as e:  # noqa: BLE001
+                    loc = in_library(e.__traceback__)
+                    if loc is None:  # not raised from flowjax: a harness problem, abort the search
+                        last["harness"] = (e, traceback.format_exc(), spec)
+                        return
+                    raise Violation(f"{ctx.prop}|{label}|raised:{type(e).__name__}@{loc}",
+                                    f"{type(e).__name__}: {str(e)[:400]}") from e
             except Violation as v:
                 if v.signature in muted or ctx.is_known(v.signature):
                     if ctx.is_known(v.signature):
                         ctx.known_hits[v.signature] = ctx.known_hits.get(v.signature, 0) + 1
                     return
+                failed[h] = v
                 last["v"], last["spec"] = v, spec
                 raise
             finally:
@@ -267,6 +290,9 @@ def run_hypothesis(ctx: Ctx, strategy, oracle, max_examples: int, label: str = "
         test = hypothesis.seed(sd)(st(given(strategy)(body)))
         try:
             test()
+            if "harness" in last:
+                e, tb, spec = last["harness"]
+                raise HarnessError(f"{label}: {type(e).__name__}: {e}\nspec={json.dumps(jsonable(spec))[:3000]}\n{tb}")
         except Violation:
             v, spec = last["v"], last["spec"]
             ctx.fail(v.signature, {"label": label, "spec": spec}, v.detail)
